@@ -198,6 +198,7 @@ fn main() {
         }
     }));
     let mut tr = out::Trace::new(&a.out, a.journal, a.num("max_events", 1_000_000_000) as u64);
+    tr.stats_path = a.stats.clone();
     let r = std::panic::catch_unwind(std::panic::AssertUnwindSafe(|| dispatch(&a, &mut tr)));
     if r.is_err() {
         eprintln!("itv: uncaught panic in the harness: {}", LAST_PANIC.lock().map(|m| m.clone()).unwrap_or_default());
